@@ -53,16 +53,26 @@ def check_ranges(ctx, ev):
     site = "verif.data.Data.__init__"
     m = prog.module("verif.data")
     found = {}
+    # selection predicates, however the selection is written: the condition guarding an append in a loop, or the filter of a
+    # comprehension (map(element, sequence, condition...)) in any assigned value
+    preds = []
     for e in trace.calls(ev):
         if not e["name"].endswith(".append") or not e["conds"]:
             continue
-        tgt = e["name"][:-7]
-        if tgt not in ("latlon_locations", "elev_locations"):
-            # any list that later reaches use_locations: accept by content
-            pass
         cond, pol = e["conds"][-1]
-        if not pol:
+        if pol:
+            preds.append((cond, e))
+    seen_maps = set()
+    for e in ev.events:
+        if e["kind"] != "assign" or not isinstance(e.get("value"), Rat):
             continue
+        for at in q.atoms(e["value"], "map"):
+            if len(at.args) > 2 and at.id not in seen_maps:
+                seen_maps.add(at.id)
+                for cnd in at.args[2:]:
+                    if isinstance(cnd, Rat):
+                        preds.append((cnd, e))
+    for cond, e in preds:
         leaves = q.leaves(cond, "and")
         for lf in leaves:
             parts = _cmp_parts(lf)
